@@ -225,7 +225,19 @@ func (p *p2pWorld) target(side, i int) *hx.Node {
 }
 
 // mirror applies a schema operation that succeeded on R and T to the replicator targets.
-func (p *p2pWorld) mirror(f func(n *hx.Node) error) {
+func (p *p2pWorld) mirror(g func(n *hx.Node) error) {
+	// a target merges pushed documents in the background; a schema change can conflict with that and is retried
+	f := func(n *hx.Node) error {
+		var err error
+		for attempt := 0; attempt < 50; attempt++ {
+			err = g(n)
+			if err == nil || !strings.Contains(strings.ToLower(err.Error()), "transaction conflict") {
+				break
+			}
+			time.Sleep(5 * time.Millisecond)
+		}
+		return err
+	}
 	p.schemaLog = append(p.schemaLog, f)
 	for _, side := range p.targets {
 		for _, n := range side {
